@@ -217,7 +217,7 @@ func NewHandlerHeaderParameter(p *HeaderParameter, cfg Config) (zero HandlerHead
 	var tp GoTypeRender = p.Type
 	var parser Parser = p.Type
 
-	fieldName := Title(p.Name)
+	fieldName := p.FieldName
 
 	out := HandlerHeaderParameter{
 		HandlerParameter: HandlerParameter{
